@@ -697,7 +697,7 @@ class Interp:
         self.err(n, f'call of {type(f).__name__} not accepted')
 
     def tensor_method(self, n, base, meth, args, kwargs):
-        if meth == 'view' and args == [-1, 1] and not kwargs:
+        if meth in ('view', 'reshape') and args == [-1, 1] and not kwargs:
             if isinstance(base, ColSel):
                 b = base.base
                 if isinstance(b, NetOut):
